@@ -192,13 +192,13 @@ def coq_chars(cs: Iterable[int]) -> str:
     return '[' + ';'.join(str(int(c)) for c in cs) + ']%N'
 
 
-def model_eval(exprs: Sequence[str], timeout: int = 120) -> list[str] | None:
+def model_eval(exprs: Sequence[str], timeout: int = 120, imports: Sequence[str] | None = None) -> list[str] | None:
     """Evaluate expressions against the compiled model outside a Ck (used by --replay). None if it cannot be done."""
     import shutil
     import tempfile
     d = tempfile.mkdtemp(prefix='sv_replay_', dir=os.environ.get('VERIF_SCRATCH', '/var/tmp'))
     try:
-        body = ''.join(f'Require Import {i}.\n' for i in IMPORTS) + PRE + 'Set Printing Width 1000000.\nSet Printing Depth 1000000.\n'
+        body = ''.join(f'Require Import {i}.\n' for i in (imports or IMPORTS)) + PRE + 'Set Printing Width 1000000.\nSet Printing Depth 1000000.\n'
         body += ''.join(f'Eval vm_compute in ({e}).\n' for e in exprs)
         f = os.path.join(d, 'replay.v')
         with open(f, 'w') as fh:
